@@ -5,9 +5,11 @@ use vcore::runner::{parse_args, run_check};
 
 mod agg;
 mod c01;
+mod c02;
 mod c03;
 mod c06;
 mod c07;
+mod c08;
 mod c21;
 
 /// Expands to a `match` over property ids calling the generic function `$f`
@@ -16,9 +18,11 @@ macro_rules! dispatch {
     ($id:expr, $f:ident ( $($extra:expr),* )) => {
         match $id {
             "C01" => $f(c01::C01, $($extra),*),
+            "C02" => $f(c02::C02, $($extra),*),
             "C03" => $f(c03::C03, $($extra),*),
             "C06" => $f(c06::C06, $($extra),*),
             "C07" => $f(c07::C07, $($extra),*),
+            "C08" => $f(c08::C08, $($extra),*),
             "C21" => $f(c21::C21, $($extra),*),
             other => {
                 eprintln!("unknown property id {}", other);
